@@ -183,11 +183,20 @@ def run_impl(c):
             return {"t": t[0] if t else "TStr", "items": [_enc(x) for x in v], "known_type": bool(t)}
         return vf.try_impl(f)
     if k == "eq":
-        a = Vector([], c["u1"], value_type=int)
-        b = Vector([], c["u2"], value_type=int)
-        a.extend(_py(v) for v in c["l1"])
-        b.extend(_py(v) for v in c["l2"])
-        return {"eq": bool(a == b)}
+        # each side gets the value type of its own items (int vectors may hold bools); empty sides get c["t1"]/c["t2"]
+        def mk(items, units, tname):
+            tn = tname
+            if items:
+                kinds = {v[0] for v in items}
+                tn = "TStr" if "s" in kinds else "TFloat" if "f" in kinds else "TInt" if "i" in kinds else "TBool"
+            vec = Vector([], units, value_type=TYPES[tn])
+            vec.extend(_py(v) for v in items)
+            return vec
+        a, b = mk(c["l1"], c["u1"], c.get("t1", "TInt")), mk(c["l2"], c["u2"], c.get("t2", "TInt"))
+        eq, ne = a == b, a != b
+        if bool(eq) == bool(ne):
+            raise RuntimeError("== and != agree")
+        return {"eq": bool(eq)}
     t = c["t"]
     vec = Vector([], value_type=TYPES[t])
     for v in c["init"]:
@@ -437,6 +446,14 @@ def gen_cases(rng, tier):
                 l2[j] = ["b", bool(l2[j][1])]
         u1 = rng.choice(["", "V", "A"]); u2 = u1 if rng.random() < 0.7 else rng.choice(["", "V", "A"])
         cases.append({"k": "eq", "l1": l1, "u1": u1, "l2": l2, "u2": u2})
+        # the same numbers held by vectors of another value type (1 == 1.0 == True), and empty vectors of two types
+        conv = rng.choice(["f", "b", "same"])
+        l3 = [(["f", 2 * v[1]] if conv == "f" and v[0] == "i" and abs(v[1]) < 10**6 else ["b", bool(v[1])] if conv == "b" and v[0] == "i" and v[1] in (0, 1) else v)
+              for v in l1]
+        if all(v[0] in ("f",) for v in l3) or all(v[0] in ("b",) for v in l3) or all(v[0] in ("i", "b") for v in l3):
+            cases.append({"k": "eq", "l1": [v for v in l1 if v[0] in ("i", "b")] if conv != "f" else [v for v in l1 if v[0] == "i" and abs(v[1]) < 10**6],
+                          "u1": u1, "l2": l3 if conv != "f" else [x for x in l3 if x[0] == "f"], "u2": u1,
+                          "t1": rng.choice(["TInt", "TBool", "TFloat", "TStr"]), "t2": rng.choice(["TInt", "TBool", "TFloat", "TStr"])})
     # histories
     for _ in range(900 if not big else 20000):
         t = rng.choice(types)
